@@ -241,6 +241,7 @@ impl Compiler {
                 start,
                 count: count as u16,
             });
+            self.builder.release_registers(start, count);
         } else {
             // Slow path: array has spreads, build incrementally
             // Start with an empty array
@@ -1745,6 +1746,7 @@ impl Compiler {
                     argc,
                 });
             }
+            self.release_arguments(args_start, argc, has_spread);
             return Ok(());
         }
 
@@ -2184,6 +2186,18 @@ impl Compiler {
                 argc,
             });
         }
+        self.release_arguments(args_start, argc, has_spread);
+    }
+
+    /// Give back the registers `compile_arguments` took, once the call that consumes them
+    /// has been emitted
+    fn release_arguments(&mut self, args_start: Register, argc: u8, has_spread: bool) {
+        if has_spread {
+            // a single register holding the collected arguments array
+            self.builder.free_register(args_start);
+        } else {
+            self.builder.release_registers(args_start, argc as usize);
+        }
     }
 
     /// Compile a new expression
@@ -2212,6 +2226,7 @@ impl Compiler {
                 argc,
             });
         }
+        self.release_arguments(args_start, argc, has_spread);
 
         self.builder.free_register(callee_reg);
         Ok(())
@@ -2317,6 +2332,7 @@ impl Compiler {
             start,
             count: reg_idx,
         });
+        self.builder.release_registers(start, total_parts);
 
         Ok(())
     }
@@ -2434,6 +2450,9 @@ impl Compiler {
 
         // Clean up
         self.builder.free_register(final_this_reg);
+        if exprs_count > 0 {
+            self.builder.release_registers(exprs_start, exprs_count);
+        }
         self.builder.free_register(tag_reg);
 
         Ok(())
